@@ -4,6 +4,7 @@ import json, sys
 pid = sys.argv[1]
 wt = sys.argv[2]
 n = sys.argv[3] if len(sys.argv) > 3 else "3"
+avoid = open(sys.argv[4]).read().strip() if len(sys.argv) > 4 else ""
 p = [json.loads(l) for l in open('/verif/properties.jsonl') if l.strip() and json.loads(l)['id'] == pid][0]
 print(f"""You are helping to evaluate a verification effort by playing the role of a developer who introduces a subtle regression. You work ONLY inside the scratch git worktree {wt} (a checkout of the Go library hprose/hprose-golang, module github.com/hprose/hprose-golang/v3: a serialization format in io/ plus an RPC framework in rpc/). Do not read or touch /verif or /repo, and do not look for any verification tooling; work only from the property below and the source code in your worktree.
 
@@ -23,4 +24,6 @@ For each change i = 1..{n} create the directory {wt}/_out/i/ containing:
   - meta.json : {{"property": "{p['id']}", "summary": "...what was changed...", "needs_to_manifest": "...the specific input/sequence/interleaving/config needed...", "demo": "how to run the demonstration (exact commands, from the worktree root)", "tests_pass": true}}.
 After producing each patch, reset the worktree source to clean (`git checkout -- .` ; keep _out/) before starting the next one, so the patches are independent.
 
-Environment: no network. Before go commands: export GOFLAGS=-mod=mod GOPROXY=off GOSUMDB=off GOTOOLCHAIN=local . Go 1.23. Every shell command prints a harmless conda warning line. If a demo needs an extra module file, keep it inside the worktree (e.g. a _test.go in the package directory is simplest). Leave the worktree source clean at the end (only _out/ added). Report briefly what you produced.""")
+Environment: no network. Before go commands: export GOFLAGS=-mod=mod GOPROXY=off GOSUMDB=off GOTOOLCHAIN=local . Go 1.23. Every shell command prints a harmless conda warning line. If a demo needs an extra module file, keep it inside the worktree (e.g. a _test.go in the package directory is simplest). Leave the worktree source clean at the end (only _out/ added). Do not use `git stash` (worktrees share the stash). Report briefly what you produced.""")
+if avoid:
+    print("\nThese mechanisms were already used by earlier participants; choose DIFFERENT mechanisms and code locations:\n" + avoid)
